@@ -1480,6 +1480,10 @@ def into_iter(vm, v, by_ref=False):
                                             for i in order), pos=0)
         if isinstance(tgt, Adt) and tgt.ty == 'Option':
             return Iter('list', items=(Ref(v.cell, v.path + (0,)),) if tgt.variant == 1 else (), pos=0)
+        if isinstance(tgt, Adt) and tgt.ty == 'GroupBy':      # `&GroupBy` yields (key, group) pairs by value
+            return Iter('list', items=tuple(tgt.fields[0].items), pos=0)
+    if isinstance(v, Adt) and v.ty == 'GroupBy':
+        return Iter('list', items=tuple(v.fields[0].items), pos=0)
     if isinstance(v, Adt) and v.ty == 'Range':
         return Iter('range', cur=v.fields[0], end=v.fields[1], incl=False)
     if isinstance(v, Adt) and v.ty == 'RangeInclusive':
@@ -2070,6 +2074,22 @@ def _cartesian(vm, cal, args):
     a = drain_iter(vm, args[0])
     b = drain_iter(vm, into_iter(vm, args[1]))
     return Iter('list', items=tuple((x, y) for x in a for y in b), pos=0)
+
+
+@reg(('*', 'Itertools', 'group_by'), ('*', 'Itertools', 'chunk_by'))
+def _group_by(vm, cal, args):
+    """itertools contract: CONSECUTIVE elements with equal keys form a group (no sorting)"""
+    xs = drain_iter(vm, args[0])
+    groups = []
+    prev = None
+    for x in xs:
+        k = vm.call_value(args[1], [vm.new_ref(x)])
+        if groups and truthy(vm, key_eq(vm, k, prev)):
+            groups[-1][1].append(x)
+        else:
+            groups.append((k, [x]))
+        prev = k
+    return Adt('GroupBy', 0, (VecV(tuple((k, Iter('list', items=tuple(g), pos=0)) for k, g in groups)),))
 
 
 @reg(('*', 'Itertools', 'tee'))
